@@ -16,6 +16,13 @@ Tie:  G  Gen/BufProgs.lean is regenerated from /repo (harness/facts_bufprog.py):
          on the real xarray (run_wrapper_probes); the fixture dimension `meta` of a case says which coordinates (scalar,
          2-D auxiliary, non-index 1-D, datetime / string scalars, coordinate attrs; every dtype and layout) and which attrs
          (plain, nested, array-valued, not deep-copyable) the rasters carry.
+      backend (round 3): Gen/DaskKinds.lean (harness/facts_daskkind.py) holds the kind program of the Dask path of every raster
+         function; Props/C10.lean proves the kind checker sound and that every such path returns a dask collection; the tables
+         the kind translator trusts are probed here on real dask (run_kind_probes).
+      streams (round 3): main (above), backend (Dask-backed inputs of every chunking class x kernel shapes up to 7x5: Dask in ->
+         lazy Dask out that computes to the input's shape, NumPy in -> NumPy out), edge (rejected and boundary inputs: the deep
+         snapshot of every argument is compared whether the call returned or raised), targeted (a rejected program's guards --
+         the branch conditions of the offending store, harvested by facts_bufprog -- drive the arguments).
 Oracle (written from the property statement, with its documented exceptions only): the same observation.  Inputs are
 compared with a recursive snapshot whether the call returned or raised; the output's cells, coordinates and attrs arrays
 are checked with np.shares_memory against every buffer of every argument (index coordinates: only if writeable) and
